@@ -125,9 +125,12 @@ func (c *Ctx) checkRetentionSemantics(r *Report, ro *Roles, rule string) bool {
 			}
 			sort.Strings(produced)
 			current := fileName + "." + w.now.Format("20060102150405")
+			// the file being written is the one opened last
+			last := -1
 			for h, p := range w.paths {
-				if w.open[h] && filepath.Dir(p) == "/logs" {
-					current = filepath.Base(p)
+				var n int
+				if _, err := fmt.Sscanf(h, "fd%d", &n); err == nil && w.open[h] && filepath.Dir(p) == "/logs" && n > last {
+					last, current = n, filepath.Base(p)
 				}
 			}
 			// the directory: own rotated files on both sides of the cut-off, the current file, directories with own names,
